@@ -45,18 +45,26 @@ def qobjOfJson (j : Json) : Except String QObj := do
 def qobjToJson (q : QObj) : Json :=
   Json.mkObj ([("tag", Json.num (q.tag : Int)), ("use_ste", Json.bool q.useSte)] ++ qstateToJson q.st)
 
-def layerOfJson (j : Json) : Except String Layer := do
-  let qs ← match j.getObjVal? "quantizers" with
+/-- a layer record: optional holders `quantizers` (array), `quantizer`, `api` (array =
+    `get_quantizers()`), `activation`, `recurrent_activation` (absent / null = attribute absent) and
+    `sub` = the layers it holds in lookup order (`layers`, `cell`, `forward_layer`, `backward_layer`,
+    `layer`) -/
+partial def layerOfJson (j : Json) : Except String Layer := do
+  let optList (k : String) : Except String (Option (List QObj)) :=
+    match j.getObjVal? k with
     | .ok (.arr a) => do pure (some (← a.toList.mapM qobjOfJson))
     | _ => pure none
-  let q ← match j.getObjVal? "quantizer" with
+  let optObj (k : String) : Except String (Option QObj) :=
+    match j.getObjVal? k with
     | .ok .null => pure none
     | .ok v => do pure (some (← qobjOfJson v))
     | .error _ => pure none
-  let hid ← match j.getObjVal? "hidden" with
-    | .ok (.arr a) => a.toList.mapM qobjOfJson
+  let sub ← match j.getObjVal? "sub" with
+    | .ok (.arr a) => a.toList.mapM layerOfJson
     | _ => pure []
-  pure { quantizers := qs, quantizer := q, hidden := hid }
+  pure (.mk { quantizers := ← optList "quantizers", quantizer := ← optObj "quantizer",
+              api := ← optList "api", activation := ← optObj "activation",
+              recurrentActivation := ← optObj "recurrent_activation" } sub)
 
 def cfgOfJson (j : Json) : Except String Cfg := do
   pure { start := ← getInt j "start", finish := ← getInt j "finish", stepMode := ← getBool j "step_mode",
@@ -137,9 +145,12 @@ def handle (j : Json) : Except String Json := do
     let layersJ ← (← j.getObjVal? "layers").getArr?
     let layers ← layersJ.toList.mapM layerOfJson
     let qs := getQuantizers layers
-    let hiddenKnob := (layers.flatMap (·.hidden)).filter QObj.hasKnob
-    pure <| Json.mkObj [("tags", Json.arr (qs.map fun q => Json.num (q.tag : Int)).toArray),
-      ("hidden_knob_tags", Json.arr (hiddenKnob.map fun q => Json.num (q.tag : Int)).toArray)]
+    let tagsJ (l : List QObj) := Json.arr (l.map fun q => Json.num (q.tag : Int)).toArray
+    pure <| Json.mkObj [("tags", tagsJ qs),
+      -- every knob-bearing object the model holds (pre-order, with repetitions)
+      ("held_knob_tags", tagsJ ((preList layers).filter QObj.hasKnob)),
+      -- what the walk returned before the fix round (regression information only)
+      ("old_tags", tagsJ (getQuantizersOld layers))]
   | "sched" =>
     let c ← cfgOfJson (← j.getObjVal? "cfg")
     let layersJ ← (← j.getObjVal? "layers").getArr?
